@@ -1383,6 +1383,57 @@ Section MetaProofs.
     intros Hn H. apply (execute_once_metas Hn) in H. destruct H as (p & (l & L & Ml) & macro' & P).
     exists l, macro'. split; auto. now rewrite Ml.
   Qed.
+
+  (* ---------------------------------------------------------------- C10_sync: execute *)
+  (* execute() calls execute_once with the same clock value every time (by construction:
+     execute (S f) now = execute_once (S f) now ;; ... execute f now), so everything that
+     happens inside is stamped now. *)
+  Lemma execute_unfold f now :
+    execute (S f) now =
+    bind (execute_once (S f) now) (fun m =>
+      match m with
+      | None => ret []
+      | Some ms => bind (execute f now) (fun r => ret (ms :: r))
+      end).
+  Proof. reflexivity. Qed.
+
+  Theorem C10_sync_execute fuel now : forall s s' r,
+    execute fuel now s = (s', r) ->
+    (fuel = O \/ i_time (m_i s') = now) /\
+    (exists l, m_tr s' = l ++ m_tr s /\ Forall (time_obs now) l /\
+               m_x s' = feed now (tr_metas l) (m_x s)) /\
+    (forall macros, r = inl macros -> Forall (fun ms => fst ms = now) macros).
+  Proof.
+    induction fuel as [|f IH]; intros s s' r H.
+    - inversion H; subst. split; [now left|]. split; [|discriminate].
+      exists []. repeat split; auto.
+    - rewrite execute_unfold in H. apply bind_inv in H.
+      destruct H as [(s1 & m & H1 & H)|(e & H1 & ->)].
+      + apply C13_frozen in H1. destruct H1 as (T1 & (l1 & L1 & F1 & X1 & _) & M1).
+        destruct m as [[t steps]|].
+        * apply bind_inv in H. destruct H as [(s2 & rr & H2 & H)|(e & H2 & ->)].
+          -- pose proof H2 as H2'. apply IH in H2. destruct H2 as (T2 & (l2 & L2 & F2 & X2) & M2).
+             inversion H; subst. split; [|split].
+             ++ right. destruct T2 as [->|T2]; [|exact T2]. inversion H2'.
+             ++ exists (l2 ++ l1). repeat split.
+                ** now rewrite L2, L1, app_assoc.
+                ** apply Forall_app; auto.
+                ** now rewrite tr_metas_app, feed_app, <- X1.
+             ++ intros macros Hm. inversion Hm; subst. constructor; [|apply M2; reflexivity].
+                cbn. eapply M1; reflexivity.
+          -- pose proof H2 as H2'. apply IH in H2. destruct H2 as (T2 & (l2 & L2 & F2 & X2) & _).
+             split; [|split; [|discriminate]].
+             ++ right. destruct T2 as [->|T2]; [|exact T2]. inversion H2'; subst. reflexivity.
+             ++ exists (l2 ++ l1). repeat split.
+                ** now rewrite L2, L1, app_assoc.
+                ** apply Forall_app; auto.
+                ** now rewrite tr_metas_app, feed_app, <- X1.
+        * inversion H; subst. split; [now right|]. split.
+          -- exists l1. auto.
+          -- intros macros Hm. inversion Hm. constructor.
+      + apply C13_frozen in H1. destruct H1 as (T1 & (l1 & L1 & F1 & X1 & _) & _).
+        split; [now right|]. split; [exists l1; auto | discriminate].
+  Qed.
 End MetaProofs.
 
 Print Assumptions C13_frozen.
